@@ -160,9 +160,9 @@ class Result:
             self.pid, self.tier, seed(), self.evaluations, len(self.nontrivial), total_inc, len(reported), len(matched), time.time() - self.t0))
         for k, v in sorted(self.counters.items()):
             print("   %-48s %d" % (k, v))
+        for e in self.harness_errors[:20]:
+            print("HARNESS: " + e)
         if rc == 0 and self.harness_errors:
-            for e in self.harness_errors:
-                print("HARNESS: " + e)
             rc = 2
         return rc
 
